@@ -17,7 +17,7 @@ For every well-formed snapshot (`WF`: every reference points to an allocated obj
   and the work list can always be drained.
 * for every run that ends with `pending = []`:
   `trace_reach_exact`, `trace_injective`, `trace_iso`, `trace_onto`, `trace_identity`,
-  `trace_schedule_independent`.
+  `trace_iso_snap`, `trace_still_reachable`, `trace_schedule_independent`.
 * `twoPhase_iso` — mark (the closure with `moves = false`) → any forwarding `F` injective on the
   marked objects → update + move (MarkCompact / Compressor); `slide_nonoverlap`, `slide_injective`,
   `slide_le` discharge the hypothesis on `F` for MarkCompact's linear-scan forwarding
@@ -207,6 +207,84 @@ theorem trace_onto (wf : WF S) (run : List Nat) (n : Id) (t : TObj)
   have inv : Inv S moves _ := run_inv wf run
   obtain ⟨o, ho⟩ := inv.onto n (by simp [ht])
   exact ⟨o, inv.reach o n ho, ho⟩
+
+/-! ### the heap after the collection is the reachable part of the heap before, renamed by `fwd` -/
+
+theorem valRef_mapRef (fwd : Id → Option Id) (x : Option Id) : valRef (mapRef fwd x) = x.bind fwd := by
+  cases x with
+  | none => rfl
+  | some y =>
+    simp only [mapRef, Option.bind_some]
+    cases h : fwd y <;> simp [valRef]
+
+/-- **trace_iso_snap**: `trace_iso` in snapshot form — `T (fwd o) = {size, hash of S o,
+fields = (S o).fields.map (·.bind fwd)}` and `T.roots = S.roots.map (·.bind fwd)`. -/
+theorem trace_iso_snap (wf : WF S) (run : List Nat)
+    (hfin : (exec S moves (init S) run).pending = []) :
+    let st := exec S moves (init S) run
+    (∀ o obj, Reach S o → S.heap o = some obj →
+      ∃ n, st.fwd o = some n ∧
+        (toSnap st).heap n = some ⟨obj.size, obj.hash, obj.fields.map (fun x => x.bind st.fwd)⟩) ∧
+    (toSnap st).roots = S.roots.map (fun x => x.bind st.fwd) := by
+  intro st
+  obtain ⟨h1, h2, _⟩ := trace_iso (moves := moves) wf run hfin
+  refine ⟨?_, ?_⟩
+  · intro o obj hr ho
+    obtain ⟨n, t, a1, a2, a3, a4, _, a6, _⟩ := h1 o obj hr ho
+    refine ⟨n, a1, ?_⟩
+    simp only [toSnap]
+    rw [a2]
+    simp only [Option.map_some, Option.some.injEq, Obj.mk.injEq]
+    refine ⟨a3, a4, ?_⟩
+    rw [a6, List.map_map]
+    apply List.map_congr_left
+    intro x _
+    exact valRef_mapRef _ x
+  · simp only [toSnap]
+    rw [h2, List.map_map]
+    apply List.map_congr_left
+    intro x _
+    exact valRef_mapRef _ x
+
+/-- **trace_still_reachable**: after a finished run the objects reachable from the (updated) roots
+in the new heap are exactly the copies of the objects that were reachable before: every reachable
+object is still reachable, and nothing else is. -/
+theorem trace_still_reachable (wf : WF S) (run : List Nat)
+    (hfin : (exec S moves (init S) run).pending = []) (n : Id) :
+    Reach (toSnap (exec S moves (init S) run)) n ↔
+      ∃ o, Reach S o ∧ (exec S moves (init S) run).fwd o = some n := by
+  have inv : Inv S moves (exec S moves (init S) run) := run_inv wf run
+  obtain ⟨hobj, hroots⟩ := trace_iso_snap (moves := moves) wf run hfin
+  constructor
+  · intro h
+    induction h with
+    | @root m hm =>
+      rw [hroots] at hm
+      obtain ⟨x, hx, hxm⟩ := List.mem_map.mp hm
+      cases x with
+      | none => cases hxm
+      | some y => exact ⟨y, Reach.root hx, hxm⟩
+    | @field i ob m _ hi hm ih =>
+      obtain ⟨o, ho, hfo⟩ := ih
+      obtain ⟨obj, hobj'⟩ := Option.isSome_iff_exists.mp (ho.alloc wf)
+      obtain ⟨n', hn', hheap⟩ := hobj o obj ho hobj'
+      rw [hfo] at hn'; injection hn' with hn'; subst hn'
+      rw [hheap] at hi; injection hi with hi; subst hi
+      obtain ⟨x, hx, hxm⟩ := List.mem_map.mp hm
+      cases x with
+      | none => cases hxm
+      | some y => exact ⟨y, Reach.field ho hobj' hx, hxm⟩
+  · rintro ⟨o, ho, hfo⟩
+    induction ho generalizing n with
+    | @root r hr =>
+      apply Reach.root
+      rw [hroots]
+      exact List.mem_map.mpr ⟨some r, hr, hfo⟩
+    | @field i ob r hi hob hr ih =>
+      obtain ⟨ni, hni⟩ := reach_fwd inv hfin hi
+      obtain ⟨n', hn', hheap⟩ := hobj i ob hi hob
+      rw [hni] at hn'; injection hn' with hn'; subst hn'
+      exact Reach.field (ih ni hni) hheap (List.mem_map.mpr ⟨some r, hr, hfo⟩)
 
 /-- **trace_schedule_independent**: two finished runs (different schedules, e.g. the real
 collector's and the reference collector's) produce the same heap up to the names of the to-objects:
